@@ -27,6 +27,7 @@ EXPLANATION = (
     "outputs — compared by identity against one module constant — are re-bound to that constant when an entry is served, because a "
     "serialising backend returns a copy. R7 also requires that the routing decision is stored as the gate recorded it and restored as it was stored (readers dispatch on its type)."
     " R6 also requires that a result is stored under the key the look-up computed before execution (never a key rebuilt afterwards from arguments the node may have changed); the key computation is followed into a helper of the same module."
+    " R2 also requires that every reaching definition of the two compared digests is of the right kind (recomputed / stored); R3 that any failure of pickle.dumps is a miss; R4 that a backend isolates entries from served values (open finding F39); R6 that the resume bypass of C14.R10 guards look-up and store."
 )
 NOT_DECIDED = "Equality of cached and uncached runs as such; behaviour of the third-party diskcache store (assumed: stored bytes come back as bytes or as a non-bytes object; its own calls do not raise); that definition_hash distinguishes any two different functions."
 
